@@ -86,7 +86,23 @@ def check(rep, ex: Explorer, cls: str, strict=True, extended=True, keys=False, f
                           extracted=f"literal key {k}" if lit else "below the minimum / above the maximum of the base's keys", required="a key provably outside the base's keys", function=site)
         # ---- C01.mode-arg
         # the mode flag itself is as good as the constant: on this path its truth value is W
-        ok = (isinstance(c.weakly, Const) and c.weakly.value is W) or (isinstance(c.weakly, Sym) and c.weakly.label == "weakly")
+        cw = c.weakly
+        if isinstance(cw, PredV):
+            from ..harness import value_on_path
+            cw = value_on_path(p, cw)  # (`weakly=not strict` with `strict = not weakly`: the path has decided it)
+            if isinstance(cw, PredV):
+                # the flag handed on as a truth value the path never looked at: under the case considered here it is W
+                def _under(q):
+                    if q == ("truthy", "weakly"):
+                        return W
+                    if isinstance(q, tuple) and q and q[0] == "not":
+                        v_ = _under(q[1])
+                        return None if v_ is None else not v_
+                    return None
+                b_ = _under(cw.p)
+                if b_ is not None:
+                    cw = Const(b_)
+        ok = (isinstance(cw, Const) and cw.value is W) or (isinstance(cw, Sym) and cw.label == "weakly")
         rep.check(ok, "C01.mode-arg", site, f"{mode}: partition mode", f"the partition of the extended base is computed in {mode} mode",
                   extracted=repr(c.weakly), required=str(W), function=site)
         pf = ("partfalse", ("part", c.pid))
